@@ -37,7 +37,7 @@ MCPool == {NOut(F(X, <<Fl(f, <<>>)>>)) : f \in Filters0}
                 Include(X, "none", NilE, "", <<>>), Include(S("p"), "for", X, "", <<>>), RenderT(S("p"), "for", X, "", <<>>),
                 RenderT(S("p"), "with", X, "", <<>>), Cycle("", <<X, Y>>, "|x,y"), Case(X, <<When(<<Y, I(1)>>, <<NText("w")>>)>>, NoElse),
                 If(Cmp("<", X, Y), <<NText("t")>>, <<>>, NoElse), If(Contains(X, Y), <<NText("t")>>, <<>>, NoElse),
-                If(In(X, Y), <<NText("t")>>, <<>>, NoElse), NOut(P([k |-> "var", segs |-> <<[t |-> "k", v |-> "x"], [t |-> "p", v |-> <<[t |-> "k", v |-> "y"]>>]>>])),
+                If(In(X, Y), <<NText("t")>>, <<>>, NoElse), NOut(P([k |-> "var", segs |-> <<[t |-> "k", v |-> "x"], [t |-> "p", p |-> <<[t |-> "k", v |-> "y"]>>]>>])),
                 NOut(P(VI("x", -1))), NOut(P(VI("x", 99))), NOut(P(VP("x", "size"))), NOut(P(VP("x", "first"))), NOut(P(VP("x", "last"))),
                 Assign("z", F(X, <<Fl("times", <<Y>>)>>)), NOut(P([k |-> "tstr", parts |-> <<S("a"), P(X), S("b"), F(Y, <<Fl("upcase", <<>>)>>)>>, q |-> "\""])),
                 With(<<WArg("w", X)>>, <<NOut(P(VP("w", "a")))>>), Call("nomacro", <<X>>, <<>>)}
